@@ -342,6 +342,9 @@ package jsonpath
 //@   ensures only: forall a, j {A_Val[a][j]} :: (a != arr(currentList) || j != off(currentList) + index) ==> A_Val[a][j] == old(A_Val[a][j])
 
 //@ callsonce userfn C14: (*syntaxFilterFunction).retrieve, (*syntaxAggregateFunction).retrieve
+// C13/C12: Accessor values are built nowhere else, so the leafacc/value postconditions of these three functions cover every accessor a retrieval returns
+//@ readset accget C12 C13: Accessor.Get only in (*syntaxBasicNode).retrieveAnyValueNext, (*syntaxBasicNode).retrieveMapNext, (*syntaxBasicNode).retrieveListNext
+//@ readset accset C12 C13: Accessor.Set only in (*syntaxBasicNode).retrieveAnyValueNext, (*syntaxBasicNode).retrieveMapNext, (*syntaxBasicNode).retrieveListNext
 //@ readset accmode C12: syntaxBasicNode.accessorMode only in (*syntaxBasicNode).retrieveAnyValueNext, (*syntaxBasicNode).retrieveMapNext, (*syntaxBasicNode).retrieveListNext, (*syntaxBasicNode).setAccessorMode, (*jsonPathParser).*
 
 //@ func (*syntaxBasicNode).addDeepestError
